@@ -2,9 +2,10 @@
 Require Extraction.
 Require Import ExtrOcamlBasic.
 From Coq Require Import ZArith NArith List.
-Require Import Yui.Model.KhCube Yui.Model.KhHomology Yui.Model.KhCheck.
+Require Import Yui.Model.KhCube Yui.Model.KhSigns Yui.Model.KhHomology Yui.Model.KhCheck.
 Extraction Language OCaml.
 Extraction "../ocaml/gen/c05_model.ml"
   Z.add N.add Nat.add
+  KhSigns.signed_nums KhSigns.kh_crossing_signs
   KhCube.mirror KhCube.first_edge
   KhCheck.p_norm KhCheck.check_complex KhCheck.specialise KhCheck.level_groups KhCheck.coeffs_reduced.
